@@ -311,10 +311,10 @@ def jobs(tier):
         for mode in modes:
             binary = op in ('join', 'leftjoin', 'rightjoin-R', 'outerjoin', 'antijoin', 'lookupjoin', 'complement',
                             'intersection', 'diff', 'recordcomplement', 'recorddiff', 'mergesort', 'merge', 'mergesort-reverse')
-            Nj = N - 1 if (q and (mode == 'config' or binary)) else N
+            Nj = N - 1 if ((q and mode == 'config') or binary) else N
             out.append(dict(name='strategy/%s/%s/O/n<=%d' % (op, mode, Nj), func='strategy',
                             params=dict(op=op, N=Nj, dom='O', mode=mode), budget=B))
-            if not q and op != 'pivot':
+            if not q and op != 'pivot' and not binary:
                 out.append(dict(name='strategy/%s/%s/M/n<=3' % (op, mode), func='strategy',
                                 params=dict(op=op, N=3, dom='Md2', mode=mode), budget=B))
     for op in OPS2:
